@@ -144,6 +144,39 @@ func ask(h *lspx.Harness, kind, uri string, p refclient.Pos) (out string, err er
 	return string(b), nil
 }
 
+// askExtra covers the requests whose parameters are not a plain document position.
+func askExtra(h *lspx.Harness, kind, uri string, p refclient.Pos) (out string, err error) {
+	ctx := context.Background()
+	var v any
+	perr := lspx.Guard(func() {
+		switch kind {
+		case "workspaceSymbol":
+			v, err = h.S.WorkspaceSymbol(ctx, &protocol.WorkspaceSymbolParams{Query: ""})
+		case "inlineCompletion":
+			raw, _ := json.Marshal(map[string]any{"textDocument": map[string]any{"uri": uri}, "position": map[string]any{"line": p.Line, "character": p.Char}, "context": map[string]any{"triggerKind": 1}})
+			v, err = h.S.InlineCompletion(ctx, raw)
+		case "rename":
+			v, err = h.S.Rename(ctx, &protocol.RenameParams{TextDocumentPositionParams: tdpp(uri, p), NewName: "renamed:x"})
+		default:
+			err = fmt.Errorf("unknown request kind %q", kind)
+		}
+	})
+	if perr != nil {
+		return "", perr
+	}
+	if err != nil {
+		return "error: " + err.Error(), nil
+	}
+	if v == nil || (reflect.ValueOf(v).Kind() == reflect.Ptr && reflect.ValueOf(v).IsNil()) {
+		return "", nil
+	}
+	b, jerr := json.Marshal(v)
+	if jerr != nil {
+		return "", jerr
+	}
+	return string(b), nil
+}
+
 var c01ProbeKinds = []string{"completion", "hover", "documentSymbol", "semanticRange", "folding", "references", "definition", "formatting"}
 
 func c01Check(c *C01Case) (ds []ev.Discrepancy, classes []string) {
